@@ -34,7 +34,7 @@ type c09Iter struct {
 // whatever other historical reads happened in between.
 func TestC09(t *testing.T) {
 	harness.Check(t, "C09",
-		"rapid state machine on a rootmulti.Store (2-3 IAVL substores, height cache off, IAVL node cache size from {default,1,3,50}): "+
+		"rapid state machine on a rootmulti.Store (2-3 IAVL substores, in-memory height cache on in a third of the cases, IAVL node cache size from {default,1,3,50}): "+
 			"commit generated blocks; write without committing; open a historical view of a retained height with LoadLazyVersion(h) or "+
 			"CacheMultiStoreWithVersion(h) and keep up to 4 open; read through any open view (Get/Has, Iterator/ReverseIterator with nil or "+
 			"key bounds) and keep iterators open across later writes and commits, stepping them later; restart the node (views are closed "+
@@ -44,8 +44,12 @@ func TestC09(t *testing.T) {
 		func(rt *rapid.T, c *harness.Case) {
 			nStores := rapid.IntRange(2, 3).Draw(rt, "nStores")
 			h := newHist(nStores, 0)
-			o := drawOpts(rt, "iavlCache", false)
-			c.Opf("stores=%d iavlCache=%d", nStores, o.iavlCache)
+			// the height cache (--useCache) serves recent past heights from memory: a configuration, not a different contract
+			o := drawOpts(rt, "iavlCache", rapid.SampledFrom([]bool{false, false, true}).Draw(rt, "heightCache"))
+			c.Opf("stores=%d iavlCache=%d heightCache=%v", nStores, o.iavlCache, o.cache)
+			if o.cache {
+				c.Label("height-cache-on")
+			}
 			db := dbm.NewMemDB()
 			nd, err := openNode(db, o, h.names, nil)
 			if err != nil {
